@@ -525,12 +525,358 @@ fn bfs(cfg: &Cfg, label: &str) -> Out {
     out
 }
 
+
+// ------------------------------------------------------------------------------------------------
+// Part T — the same handlers on real threads (vsched): the coordinator's decision calls and the
+// participant's message handlers run concurrently; every lock acquisition is a scheduling point;
+// all schedules up to the preemption bound. Oracle: one decision per transaction; a transaction
+// whose commit was acknowledged keeps its writes; an aborted one leaves none.
+// ------------------------------------------------------------------------------------------------
+#[derive(Clone, Debug, Serialize, Deserialize)]
+enum TOp {
+    /// deliver prepare/commit/abort of transaction t to shard s through TxHandler::handle
+    PPrepare(u8, u8),
+    PCommit(u8, u8),
+    PAbort(u8, u8),
+    /// hand the coordinator the vote shard s produced for t (if it produced one)
+    CoVote(u8, u8),
+    /// minimal driver: commit() when the coordinator shows the transaction Prepared
+    CoCommit(u8),
+    CoAbort(u8),
+    CoTimeout,
+}
+#[derive(Clone, Debug, Serialize, Deserialize)]
+struct TProg {
+    name: String,
+    ntx: u8,
+    shards: u8,
+    pre: Vec<TOp>,
+    /// virtual milliseconds that pass between the sequential prefix and the threads
+    advance_ms: i64,
+    threads: Vec<Vec<TOp>>,
+}
+struct TCtx {
+    cfg: Cfg,
+    coord: DistributedTxCoordinator,
+    parts: Vec<Arc<TxParticipant>>,
+    handlers: Vec<TxHandler>,
+    ids: Vec<u64>,
+    votes: std::sync::Mutex<BTreeMap<(u8, u8), Message>>,
+    /// (stamp, text) log of what every call returned
+    log: std::sync::Mutex<Vec<(u64, String)>>,
+    decisions: std::sync::Mutex<Vec<BTreeSet<Decision>>>,
+    /// shard s acknowledged commit of t with success / granted the prepare of t (stamp of the grant)
+    commit_acked: std::sync::Mutex<BTreeSet<(u8, u8)>>,
+    granted: std::sync::Mutex<BTreeMap<(u8, u8), u64>>,
+    /// logical time: calls are serialised by the scheduler, so a counter orders them
+    ticks: std::sync::atomic::AtomicU64,
+}
+impl TCtx {
+    fn tick(&self) -> u64 {
+        self.ticks.fetch_add(1, std::sync::atomic::Ordering::SeqCst)
+    }
+}
+fn t_exec(c: &TCtx, op: &TOp) {
+    let coordn = "coord".to_string();
+    let note = |c: &TCtx, s: String| c.log.lock().unwrap().push((c.tick(), s));
+    match op {
+        TOp::PPrepare(t, s) => {
+            let m = Message::TxPrepare(TxPrepareMsg { tx_id: c.ids[*t as usize], coordinator: "coord".into(), shard_id: *s as usize, operations: ops_of(&c.cfg, *t, *s), delta_embedding: SparseVector::new(0), timeout_ms: 5_000 });
+            let resp = c.handlers[*s as usize].handle(&coordn, &m);
+            if let Some(Message::TxPrepareResponse(r)) = &resp {
+                let yes = matches!(r.vote, TxVote::Yes { .. });
+                if yes {
+                    c.granted.lock().unwrap().insert((*t, *s), c.tick());
+                }
+                note(c, format!("prepare t{t}@s{s} -> {}", if yes { "yes" } else { "refused" }));
+                c.votes.lock().unwrap().insert((*t, *s), resp.clone().unwrap());
+            }
+        }
+        TOp::PCommit(t, s) => {
+            let m = Message::TxCommit(TxCommitMsg { tx_id: c.ids[*t as usize], shards: vec![*s as usize] });
+            let ok = matches!(c.handlers[*s as usize].handle(&coordn, &m), Some(Message::TxAck(a)) if a.success);
+            if ok {
+                c.commit_acked.lock().unwrap().insert((*t, *s));
+            }
+            note(c, format!("commit t{t}@s{s} -> ack {ok}"));
+        }
+        TOp::PAbort(t, s) => {
+            let m = Message::TxAbort(TxAbortMsg { tx_id: c.ids[*t as usize], reason: "abort".into(), shards: vec![*s as usize] });
+            let _ = c.handlers[*s as usize].handle(&coordn, &m);
+            note(c, format!("abort t{t}@s{s}"));
+        }
+        TOp::CoVote(t, s) => {
+            let Some(Message::TxPrepareResponse(r)) = c.votes.lock().unwrap().get(&(*t, *s)).cloned() else { return };
+            let res = c.coord.record_vote(r.tx_id, r.shard_id, r.vote.clone().into());
+            note(c, format!("record_vote t{t} s{s} -> {:?}", res.as_ref().map(|p| p.map(|x| format!("{x:?}"))).map_err(|e| e.to_string())));
+            if let Ok(Some(TxPhase::Aborting)) = res {
+                c.decisions.lock().unwrap()[*t as usize].insert(Decision::Abort);
+                let _ = c.coord.abort(r.tx_id, "vote no");
+            }
+        }
+        TOp::CoCommit(t) => {
+            let id = c.ids[*t as usize];
+            if c.coord.get(id).is_some_and(|x| x.phase == TxPhase::Prepared) {
+                let ok = c.coord.commit(id).is_ok();
+                if ok {
+                    c.decisions.lock().unwrap()[*t as usize].insert(Decision::Commit);
+                }
+                note(c, format!("coordinator commit t{t} -> {ok}"));
+            } else {
+                note(c, format!("coordinator commit t{t}: not prepared"));
+            }
+        }
+        TOp::CoAbort(t) => {
+            let ok = c.coord.abort(c.ids[*t as usize], "client").is_ok();
+            if ok {
+                c.decisions.lock().unwrap()[*t as usize].insert(Decision::Abort);
+            }
+            note(c, format!("coordinator abort t{t} -> {ok}"));
+        }
+        TOp::CoTimeout => {
+            let timed = c.coord.cleanup_timeouts();
+            for id in &timed {
+                if let Some(t) = c.ids.iter().position(|x| x == id) {
+                    c.decisions.lock().unwrap()[t].insert(Decision::Abort);
+                }
+            }
+            note(c, format!("cleanup_timeouts -> {} timed out", timed.len()));
+        }
+    }
+}
+type TExec = (Vec<vsched::Body>, Box<dyn FnOnce(&vsched::RunResult) -> vsched::Verdict>);
+fn t_mk(p: &TProg) -> TExec {
+    env::clock_reset();
+    let prog = p.clone();
+    // built on a fresh, identically seeded OS thread: same HashMap seeds in every execution
+    let ctx: Arc<TCtx> = std::thread::spawn(move || {
+        env::set_thread_seed(1000);
+        let cfg = Cfg { ntx: prog.ntx, shards: prog.shards, dups: 0, timeouts: 0, client_aborts: 0, depth: 0 };
+        let mut dcfg = DistributedTxConfig::default();
+        dcfg.prepare_timeout_ms = 5_000;
+        let coord = DistributedTxCoordinator::new(ConsensusManager::new(ConsensusConfig::default()), dcfg);
+        let parts: Vec<Arc<TxParticipant>> = (0..cfg.shards).map(|_| Arc::new(TxParticipant::new(TensorStore::new()))).collect();
+        let handlers = parts.iter().map(|p| TxHandler::new(p.clone())).collect();
+        // generate_tx_id keeps a process-wide same-millisecond counter: one millisecond per id
+        let _ = tensor_chain::generate_tx_id();
+        let shards: Vec<usize> = (0..cfg.shards as usize).collect();
+        let ids: Vec<u64> = (0..cfg.ntx)
+            .map(|_| {
+                env::clock_advance_ms(1);
+                coord.begin(&"coord".to_string(), &shards).expect("begin").tx_id
+            })
+            .collect();
+        let ctx = Arc::new(TCtx { decisions: std::sync::Mutex::new(vec![BTreeSet::new(); cfg.ntx as usize]), cfg, coord, parts, handlers, ids, votes: Default::default(), log: Default::default(), commit_acked: Default::default(), granted: Default::default(), ticks: Default::default() });
+        for op in &prog.pre {
+            t_exec(&ctx, op);
+        }
+        ctx
+    })
+    .join()
+    .expect("setup thread");
+    env::clock_advance_ms(p.advance_ms);
+    let mut bodies: Vec<vsched::Body> = vec![];
+    for ops in &p.threads {
+        let (ctx, ops) = (ctx.clone(), ops.clone());
+        bodies.push(Box::new(move || {
+            for op in &ops {
+                t_exec(&ctx, op);
+            }
+        }));
+    }
+    let check = Box::new(move |_r: &vsched::RunResult| {
+        let c = &*ctx;
+        let mut log = c.log.lock().unwrap().clone();
+        log.sort();
+        let show = || log.iter().map(|(_, s)| s.clone()).collect::<Vec<_>>().join("; ");
+        let decisions = c.decisions.lock().unwrap().clone();
+        let mut violation = None;
+        for (t, d) in decisions.iter().enumerate() {
+            if d.len() > 1 {
+                violation = Some(format!("c03:conc:decision-changed|t{t} was decided both ways ({d:?}): {}", show()));
+            }
+        }
+        // quiescence: the coordinator's decision reaches every shard (sequentially, commit before abort
+        // cannot matter once there is a single decision)
+        if violation.is_none() {
+            for (t, d) in decisions.iter().enumerate() {
+                for s in 0..c.cfg.shards {
+                    match d.iter().next() {
+                        Some(Decision::Commit) => t_exec(c, &TOp::PCommit(t as u8, s)),
+                        Some(Decision::Abort) => t_exec(c, &TOp::PAbort(t as u8, s)),
+                        None => {}
+                    }
+                }
+            }
+        }
+        let acked = c.commit_acked.lock().unwrap().clone();
+        let granted = c.granted.lock().unwrap().clone();
+        let mut data = vec![];
+        for s in 0..c.cfg.shards {
+            let store = c.parts[s as usize].store();
+            let mut keys = store.scan("");
+            keys.sort();
+            for k in keys {
+                let v = store.get(&k).ok().and_then(|d| d.get("data").cloned());
+                let writer = (0..c.cfg.ntx).find(|t| key_of(*t, s) == k && v == Some(TensorValue::Scalar(ScalarValue::Bytes(value_of(*t)))));
+                data.push(format!("s{s}:{k}={}", writer.map_or("?".into(), |t| format!("t{t}"))));
+                match writer {
+                    Some(t) if acked.contains(&(t, s)) => {}
+                    Some(t) => violation = violation.or(Some(format!("c03:conc:uncommitted-write-visible|shard {s} key {k} holds the write of t{t}, whose commit it never acknowledged: {}", show()))),
+                    None => violation = violation.or(Some(format!("c03:conc:unknown-data|shard {s} key {k}: {}", show()))),
+                }
+            }
+            // every key must show the write of the acknowledged transaction that was granted the key last
+            let mut by_key: BTreeMap<String, (u64, u8)> = BTreeMap::new();
+            for (t, s2) in &acked {
+                if *s2 == s {
+                    let g = granted.get(&(*t, s)).copied().unwrap_or(0);
+                    let e = by_key.entry(key_of(*t, s)).or_insert((g, *t));
+                    if g >= e.0 {
+                        *e = (g, *t);
+                    }
+                }
+            }
+            for (k, (_, t)) in by_key {
+                let v = store.get(&k).ok().and_then(|d| d.get("data").cloned());
+                if v != Some(TensorValue::Scalar(ScalarValue::Bytes(value_of(t)))) {
+                    violation = violation.or(Some(format!("c03:conc:committed-write-lost|shard {s} acknowledged the commit of t{t} (last holder of {k}) but the key shows {v:?}: {}", show())));
+                }
+            }
+        }
+        // a committed transaction is applied on every shard (no split)
+        for (t, d) in decisions.iter().enumerate() {
+            if d.contains(&Decision::Commit) && d.len() == 1 {
+                for s in 0..c.cfg.shards {
+                    if !acked.contains(&(t as u8, s)) {
+                        violation = violation.or(Some(format!("c03:conc:commit-not-applied-by-prepared-shard|t{t} was committed but shard {s} did not apply it: {}", show())));
+                    }
+                }
+            }
+        }
+        let outcome = format!("{:?}|{:?}|{}", decisions, data, log.iter().map(|(_, s)| s.as_str()).filter(|s| s.contains("->")).collect::<Vec<_>>().join(";"));
+        vsched::Verdict { outcome, violation }
+    });
+    (bodies, check)
+}
+fn t_programs(thorough: bool) -> Vec<TProg> {
+    use TOp::*;
+    let mk = |name: &str, ntx: u8, shards: u8, pre: Vec<TOp>, advance_ms: i64, threads: Vec<Vec<TOp>>| TProg { name: name.into(), ntx, shards, pre, advance_ms, threads };
+    // t0 fully voted yes on 2 shards
+    let voted = |t: u8| vec![PPrepare(t, 0), PPrepare(t, 1), CoVote(t, 0), CoVote(t, 1)];
+    let mut v = vec![
+        mk("participant: commit(t0)@s0 || prepare(t1)@s0; abort(t1)@s0 (same key)", 2, 1, vec![PPrepare(0, 0)], 0, vec![vec![PCommit(0, 0)], vec![PPrepare(1, 0), PAbort(1, 0)]]),
+        mk("participant: commit(t0)@s0 || prepare(t1)@s0; commit(t1)@s0 (same key)", 2, 1, vec![PPrepare(0, 0)], 0, vec![vec![PCommit(0, 0)], vec![PPrepare(1, 0), PCommit(1, 0)]]),
+        mk("participant: abort(t0)@s0 || prepare(t1)@s0; commit(t1)@s0 (same key)", 2, 1, vec![PPrepare(0, 0)], 0, vec![vec![PAbort(0, 0)], vec![PPrepare(1, 0), PCommit(1, 0)]]),
+        mk("coordinator: commit(t0) || cleanup_timeouts (deadline passed)", 1, 2, voted(0), 6_000, vec![vec![CoCommit(0)], vec![CoTimeout]]),
+        mk("coordinator: commit(t0) || abort(t0)", 1, 2, voted(0), 0, vec![vec![CoCommit(0)], vec![CoAbort(0)]]),
+        mk("coordinator: last vote; commit(t0) || cleanup_timeouts (deadline passed)", 1, 2, vec![PPrepare(0, 0), PPrepare(0, 1), CoVote(0, 0)], 6_000, vec![vec![CoVote(0, 1), CoCommit(0)], vec![CoTimeout]]),
+        mk("coordinator: last vote; commit(t0) || abort(t0)", 1, 2, vec![PPrepare(0, 0), PPrepare(0, 1), CoVote(0, 0)], 0, vec![vec![CoVote(0, 1), CoCommit(0)], vec![CoAbort(0)]]),
+    ];
+    if thorough {
+        v.push(mk("coordinator: commit(t0) || cleanup_timeouts || abort(t0)", 1, 2, voted(0), 6_000, vec![vec![CoCommit(0)], vec![CoTimeout], vec![CoAbort(0)]]));
+        v.push(mk("coordinator: commit(t0) || commit(t1) || cleanup_timeouts (two transactions, deadline passed)", 2, 2, [voted(0), vec![PPrepare(1, 1), CoVote(1, 1)]].concat(), 6_000, vec![vec![CoCommit(0)], vec![CoTimeout]]));
+        v.push(mk("participant: commit(t0)@s0 || prepare(t1)@s0; abort(t1)@s0 || prepare(t1)@s1", 2, 2, vec![PPrepare(0, 0), PPrepare(0, 1)], 0, vec![vec![PCommit(0, 0), PCommit(0, 1)], vec![PPrepare(1, 0), PAbort(1, 0)]]));
+    }
+    v
+}
+#[derive(Default)]
+struct TOut {
+    programs: u64,
+    executions: u64,
+    sched_points: u64,
+    distinct_outcomes: u64,
+    per_program: Vec<serde_json::Value>,
+    violations: Vec<(String, String, serde_json::Value)>,
+    machinery: Option<String>,
+}
+fn part_t(thorough: bool, only: Option<&str>) -> TOut {
+    vsched::quiet_panics();
+    vsched::set_thread_init(|t| env::set_thread_seed(t as u64 + 1));
+    let mut out = TOut::default();
+    for p in t_programs(thorough) {
+        if only.is_some_and(|o| !p.name.contains(o)) {
+            continue;
+        }
+        let bound = if thorough { 6 } else { 3 };
+        let stats = vsched::explore(&vsched::ExploreCfg { bound, part: (0, 1), max_execs: 2_000_000 }, || t_mk(&p));
+        out.programs += 1;
+        out.executions += stats.executions;
+        out.sched_points += stats.sched_points;
+        out.distinct_outcomes += stats.outcomes.len() as u64;
+        out.per_program.push(json!({"program": p.name, "preemption_bound": bound, "schedules": stats.executions, "distinct_outcomes": stats.outcomes.len(), "max_scheduling_points": stats.max_points, "violating_schedules": stats.violation_count}));
+        if let Some(m) = stats.machinery {
+            out.machinery.get_or_insert(format!("{}: {m}", p.name));
+        }
+        if stats.capped {
+            out.machinery.get_or_insert(format!("{}: execution cap hit", p.name));
+        }
+        for v in stats.violations {
+            let (sig, msg) = v.message.split_once('|').map_or_else(|| (if v.message.starts_with("deadlock") { "c03:conc:deadlock".to_string() } else { "c03:conc:panic".to_string() }, v.message.clone()), |(a, b)| (a.to_string(), b.to_string()));
+            if out.violations.iter().filter(|x| x.0 == sig).count() < 3 {
+                out.violations.push((sig, format!("{}: {msg} (thread schedule {:?}, {} preemptions)", p.name, v.threads, v.preemptions), json!({"part": "T", "program": p, "bound": bound, "choices": v.choices})));
+            }
+        }
+    }
+    env::clock_reset();
+    out
+}
+
+/// re-run one stored counterexample without the explorer
+fn replay_case(rep: &mut Report, path: &str) {
+    let body: serde_json::Value = serde_json::from_str(&std::fs::read_to_string(path).expect("replay file")).expect("replay json");
+    let r = body.get("replay").cloned().unwrap_or(body.clone());
+    let sig = body["signature"].as_str().unwrap_or("c03:replayed").to_string();
+    if r["part"] == "T" {
+        vsched::quiet_panics();
+        vsched::set_thread_init(|t| env::set_thread_seed(t as u64 + 1));
+        let p: TProg = serde_json::from_value(r["program"].clone()).expect("program");
+        let choices: Vec<usize> = serde_json::from_value(r["choices"].clone()).expect("choices");
+        let mut verdicts = vec![];
+        for _ in 0..2 {
+            let (bodies, check) = t_mk(&p);
+            let run = vsched::run(&choices, bodies);
+            if let Some(m) = &run.machinery {
+                rep.machinery(format!("replay diverged: {m}"));
+                return;
+            }
+            verdicts.push(if run.deadlock { (String::from("<deadlock>"), Some("deadlock".to_string())) } else if let Some((t, m)) = run.panics.first() { ("<panic>".into(), Some(format!("panic in thread {t}: {m}"))) } else { let v = check(&run); (v.outcome, v.violation) });
+        }
+        env::clock_reset();
+        if verdicts[0] != verdicts[1] {
+            rep.machinery("replaying the schedule twice gave different observations".to_string());
+        }
+        rep.add("schedules", 1);
+        println!("replayed schedule of '{}': {:?}", p.name, verdicts[0]);
+        if let Some(v) = &verdicts[0].1 {
+            rep.violation(sig, v.clone(), r.clone());
+        }
+    } else {
+        let label = r["cfg"].as_str().expect("cfg label").to_string();
+        let nums: Vec<u8> = label.split(|c: char| !c.is_ascii_digit()).filter(|x| !x.is_empty()).map(|x| x.parse().unwrap()).collect();
+        let cfg = Cfg { ntx: nums[0], shards: nums[1], dups: nums[2], timeouts: nums[3], client_aborts: nums[4], depth: 80 };
+        let events: Vec<Ev> = serde_json::from_value(r["events"].clone()).expect("events");
+        let w = replay(&cfg, &events);
+        rep.add("transitions", events.len() as u64);
+        println!("replayed {} events on '{label}': violation {:?}", events.len(), w.violation);
+        if let Some((s, m)) = &w.violation {
+            rep.violation(format!("c03:{s}"), m.clone(), r.clone());
+        }
+    }
+    rep.sample(json!({"replayed": path}));
+}
+
 fn main() {
     env::require();
     env::clock_freeze(1_750_000_000);
     let mut rep = Report::new("C03", "model_checking");
+    if let Some(path) = rep.args.replay.clone() {
+        replay_case(&mut rep, &path);
+        rep.finish();
+    }
     let thorough = rep.thorough();
     rep.rule("replay BFS: a state is its event history; each expansion replays it on a fresh real coordinator + participants (TxHandler::handle seam) and runs one more event of {begin, deliver any in-flight prepare/vote/commit/abort, duplicate (budget), coordinator timeout sweep (budget, clock advanced), client abort (budget)}; loss = never delivering, reordering inherent; dedup on a canonical rendering of coordinator transactions, participant prepared sets/locks/data, in-flight messages and history variables; invariants on every state");
+    rep.rule("part T: 2-3 real threads run the coordinator's commit/abort/record_vote/cleanup_timeouts and the participants' prepare/commit/abort handlers concurrently under the vsched scheduler (every parking_lot/dashmap lock acquisition is a scheduling point), all schedules up to the preemption bound (quick 3, thorough 6); afterwards the single decision is delivered to every shard and decisions, acknowledgements and shard data are compared");
     rep.assume("trusted driver (the repository has no production sender for commit): on record_vote -> Prepared call commit() and only on Ok emit TxCommit; on Aborting call abort(); abort broadcasts are emitted by the real process_pending_aborts; participant-side unilateral timeouts are outside the quantifier and not in the alphabet");
     let mk = |ntx: u8, shards: u8, dups: u8, timeouts: u8, client_aborts: u8| (format!("{ntx}tx x {shards} shards dup<={dups} timeout<={timeouts} clientabort<={client_aborts}"), Cfg { ntx, shards, dups, timeouts, client_aborts, depth: 80 });
     let cfgs: Vec<(String, Cfg)> = if thorough {
@@ -562,6 +908,23 @@ fn main() {
         }
         if o.committed_states == 0 || o.aborted_states == 0 {
             rep.machinery(format!("{label}: vacuous (no commit or no abort reached)"));
+        }
+    }
+    // Part T: the handlers on real threads
+    if only.as_ref().map_or(true, |o| o.starts_with("T")) {
+        let o = part_t(thorough, only.as_ref().and_then(|o| o.strip_prefix("T:")));
+        for (sig, msg, r) in &o.violations {
+            rep.violation(sig.clone(), msg.clone(), r.clone());
+        }
+        rep.add("schedules", o.executions);
+        rep.add("evaluations", o.executions);
+        rep.add("distinct_nontrivial", o.distinct_outcomes);
+        rep.part("T: coordinator decision calls and participant handlers on real threads", json!({"programs": o.programs, "schedules": o.executions, "scheduling_points": o.sched_points, "distinct_outcomes": o.distinct_outcomes, "per_program": o.per_program}));
+        if let Some(m) = o.machinery {
+            rep.machinery(m);
+        }
+        if rep.coverage.get("samples").is_none() {
+            rep.sample(json!({"part": "T", "first_program": o.per_program.first()}));
         }
     }
     rep.set("explanation", json!("no separate model: every transition is the real coordinator/participant code"));
